@@ -17,6 +17,7 @@ From Verif.Base Require Import Prelude StdioUtf8.
 From Verif.Model Require Import StdioOut.
 From Verif.Spec Require Import C06.
 From Verif.Proofs Require Import StdioOut.
+From Verif.Proofs Require StdioOutMerge.
 Open Scope Z_scope.
 
 (** 1. Structure (both policies): the child's stdin receives, in the order
@@ -95,6 +96,26 @@ Theorem C06_stream_is_ndjson_patched :
               (concat (writes model value dump_json model_dump dumps loads Recompact msgs)).
 Proof. exact recompact_stream. Qed.
 Print Assumptions C06_stream_is_ndjson_patched.
+
+(** Two tasks write to the child's stdin: the writer task, and the reader task
+    (the rejection error for a server batch, one whole line per [send]).  For
+    ANY message sequence and ANY interleaving of the two tasks' writes the child
+    reads a well-framed NDJSON stream whose lines are exactly the writer's
+    lines and the other task's lines, each task's order kept - no line ever
+    ends up inside another, because every message is ONE write
+    ([writes = map (fun b => b ++ [10]) bodies]). *)
+Theorem C06_interleaved_writers_keep_lines_whole :
+  forall model value dump_json model_dump dumps loads,
+  (forall v t, dumps v = Some t -> has_break t = false) ->
+  (forall e t, dump_json e = Some t -> has_break t = false) ->
+  forall msgs (others : list (list Z)) w,
+  Forall no_break others ->
+  StdioOutMerge.Merge (writes model value dump_json model_dump dumps loads Recompact msgs)
+                      (map (fun b => b ++ [10]) others) w ->
+  exists lm, StdioOutMerge.Merge (bodies model value dump_json model_dump dumps loads Recompact msgs) others lm
+             /\ Spec_stream lm (concat w).
+Proof. exact StdioOutMerge.two_writers_ndjson. Qed.
+Print Assumptions C06_interleaved_writers_keep_lines_whole.
 
 (** 4. Content: a line's body is the UTF-8 encoding of the serialiser's text
     (decodes back to it), and -- for codecs that round-trip -- the decoded
